@@ -491,7 +491,7 @@ func init() {
 									jobs = append(jobs, J(sessPkg, "H_C06_acceptor", l[0], l[1], as, 0, 1+first%2, first, creds, am))
 								}
 							}
-							for dmg := 1; dmg < 6; dmg++ {
+							for _, dmg := range []int{1, 2, 3, 4, 5, 8, 9} { // 8/9: 20-digit HeartBtInt / MsgSeqNum
 								if first == 0 || first == 5 || first == 3 {
 									jobs = append(jobs, J(sessPkg, "H_C06_acceptor", l[0], l[1], as, dmg, 1, first, 0, 0))
 								}
@@ -563,6 +563,10 @@ func init() {
 							}
 						}
 					}
+					// long histories (concrete contents), and a history that starts before the logon
+					for _, c := range [][4]int{{70, 1, 0, 0}, {70, 2, 69, 0}, {66, 64, 66, 0}, {130, 1, 0, 0}, {4, 1, 0, 1}, {4, 2, 5, 1}, {70, 1, 0, 1}} {
+						jobs = append(jobs, J(sessPkg, "H_C10_long", role, c[0], c[1], c[2], c[3]))
+					}
 					for cc := 0; cc <= 1; cc++ {
 						for nc := 0; nc <= 1; nc++ {
 							jobs = append(jobs, J(sessPkg, "H_C10_gap", role, cc, nc))
@@ -573,7 +577,7 @@ func init() {
 			},
 			Explanation:  "Symbolic harness: a logged-on session sends k messages of mixed types with symbolic contents; their first transmissions are recorded from the outbound queue; (in further cases the history is produced by the session itself: two TestRequests from the silence timer, each answered, two Heartbeats from the heartbeat timer, an echo of the peer's TestRequest); then one or two ResendRequests with symbolic BeginSeqNo/EndSeqNo (0..99, so inside, e=0, b=e, beyond last, b>e, b=0, repeated) are dispatched. Asserted: for 1<=b<=e<=last (e=0 meaning last) exactly the recorded messages b..e, ascending, byte-identical; otherwise nothing outside the range and nothing new. Gap detection: stored last-received number c and Logon MsgSeqNum n symbolic: n>c+1 => exactly one ResendRequest with BeginSeqNo=c+1 covering the gap; otherwise none.",
 			Rule:         "case = (role, k, range classes, one or two requests) x path (ranges are concretised by forking, so every (b,e) is its own path)",
-			Bounds:       map[string]string{"quick": "k<=3 messages after the logon exchange, b,e in 0..99, <=2 requests", "thorough": "k<=5"},
+			Bounds:       map[string]string{"quick": "k<=3 messages after the logon exchange, b,e in 0..99, <=2 requests; concrete-content histories of 4, 66, 70 and 130 messages with fixed ranges, optionally preceded by a pre-logon Reject", "thorough": "k<=5"},
 			Assumptions:  sessAssume,
 			Outside:      "stores other than the bundled one; PossDupFlag semantics (not part of the property)",
 			Differential: 4,
@@ -625,6 +629,16 @@ func init() {
 								jobs = append(jobs, J(sessPkg, "H_C19_inbound", nAll, nType, order, kind))
 							}
 						}
+					}
+				}
+				for dir := 0; dir <= 1; dir++ {
+					for two := 0; two <= 1; two++ {
+						jobs = append(jobs, J(sessPkg, "H_C19_late", dir, two))
+					}
+				}
+				for role := 0; role <= 1; role++ {
+					for at := 0; at <= 3; at++ {
+						jobs = append(jobs, J(sessPkg, "H_C19_replay", role, at))
 					}
 				}
 				for n := 0; n <= 4; n++ {
